@@ -252,8 +252,16 @@ Proof.
        [ intros Hc; cbn [ext_step]; apply F4; intros [Ht Hq]; unfold commits in Hc; cbn [ev_cmd] in Hc;
          rewrite Ht, Hq in Hc; discriminate
        | intros Hcl; rewrite F5 by exact Hcl; exact Hcl ].
-  all: cbn zeta; unfold winv; cbn [w_sess w_store w_out with_store ext_step set_state s_state s_msgs s_user];
-       repeat split; auto; try congruence; try (intros; apply inv_set_state; assumption).
+  all: try (cbn zeta; unfold winv; cbn [w_sess w_store w_out with_store ext_step set_state s_state s_msgs s_user];
+       repeat split; auto; try congruence; try (intros; apply inv_set_state; assumption); fail).
+  (* EReadErr *)
+  cbn zeta. destruct (is_open w) eqn:Eo.
+  - unfold winv; cbn [w_sess w_store w_out ext_step set_state s_state s_msgs s_user].
+    repeat split; auto; try congruence; try (intros; apply inv_set_state; assumption).
+    intros Hi r Hin. destruct (w_wfail w); [auto|].
+    apply in_app_or in Hin. destruct Hin as [Hin|[<-|[]]]; auto.
+  - unfold is_open in Eo.
+    repeat split; auto; try congruence; intros Hx; rewrite Hx in Eo; discriminate.
 Qed.
 
 Lemma run_cons fl w e evs : run fl w (e :: evs) = run fl (wstep fl w e) evs.
@@ -433,6 +441,7 @@ Proof.
        match goal with |- context [step ?a ?b ?c ?d] =>
          pose proof (step_cinv a b c d Hc); destruct (step a b c d) as [[s1 r1] st1] end;
        destruct (w_wfail w); exact H.
+  destruct (is_open w); exact Hc.
 Qed.
 
 Lemma run_cinv fl evs : forall w, cinv (w_sess w) -> cinv (w_sess (run fl w evs)).
